@@ -217,6 +217,16 @@ fn gen_frame_pdu(r: &mut Rng, dir: Dir) -> Vec<u8> {
 /// a frame whose payload itself contains a complete well-formed frame of the same transport and direction
 /// (plus a few more bytes): resynchronising inside an unfinished frame would report the embedded one
 fn gen_nested_frame(r: &mut Rng, tr: &str, dir: Dir) -> Vec<u8> {
+    if tr == "rtu" && dir == Dir::Req && r.bool() {
+        // a 0x17 request whose HEADER fields spell a CRC-valid 4-byte request frame (slave, 1-byte PDU, CRC)
+        let inner = rtu_frame(r.u8(), &[*r.pick(&[0x07u8, 0x0B, 0x0C, 0x11])]);
+        let n = 1 + r.below(4);
+        let mut p = vec![0x17u8];
+        if r.bool() { p.extend(&inner); p.extend([r.u8(), r.u8()]); } else { p.extend([r.u8(), r.u8()]); p.extend(&inner); }
+        p.extend([0, n as u8, (2 * n) as u8]);
+        p.extend(r.bytes(2 * n));
+        return rtu_frame(r.u8(), &p);
+    }
     let inner = loop {
         let p = gen_frame_pdu(r, dir);
         if p.len() <= 24 { break if tr == "rtu" { rtu_frame(r.u8(), &p) } else { tcp_frame(r.u16(), r.u8(), &p) }; }
@@ -422,6 +432,20 @@ pub fn generate(prop: &str, tier: &str, seed: u64, out: &mut impl Write) {
                     let k = (i / 5) % 9;
                     (RspM::Exc(f, [1u8, 2, 3, 4, 5, 6, 8, 10, 11][k]), format!("EXC N{f:02X} {k}"))
                 } else { gen_rsp(r, false) };
+                if i % 7 == 3 {
+                    // a response value obtained by DECODING (odd byte counts, excess bytes), then framed
+                    let bc = *r.pick(&[1usize, 3, 5, 9, 251, 253, 2, 4]);
+                    let fc = *r.pick(&[1u8, 2, 3, 4, 0x17]);
+                    let mut p = vec![fc, bc as u8]; p.extend(r.rbytes(bc, 3));
+                    let h = hex_of(&p);
+                    if rtu {
+                        w!("rtuenc rsp {id} DEC {h} {} {}", 2 + bc + 3 + 2, fill_tok(r));
+                        w!("#@ C04 rsp {id} DEC {h}");
+                    } else {
+                        w!("tcpenc rsp {tid} {id} DEC {h} {} {}", 2 + bc + 7 + 2, fill_tok(r));
+                        w!("#@ C05 rsp {tid} {id} DEC {h}");
+                    }
+                }
                 let pdu = rsp_bytes(&m);
                 let l = crate_rsp_len(&m) + ovh + *r.pick(&[0usize, 0, 1, 2]);
                 if rtu {
@@ -534,6 +558,16 @@ pub fn generate(prop: &str, tier: &str, seed: u64, out: &mut impl Write) {
                     let l = adu.len();
                     let mut spans: Vec<(usize, usize)> = vec![(0, l), (0, l - 1), (0, l - 2), (1, l), (0, l.min(253)), (0, l.min(252)), (0, l.min(254)), (0, l.min(256)), (0, 1), (0, l / 2)];
                     spans.dedup();
+                    // the CRC of a shorter span INSERTED right after that span (the announced length says the frame goes on)
+                    for k in [l.min(254), l.min(253), l.min(252), l - 1, l / 2] {
+                        if k < 2 || k >= l { continue; }
+                        let mut g = adu[..k].to_vec(); g.extend(crc_wire(&adu[..k])); g.extend(&adu[k..]); g.extend([0u8, 0, 0]);
+                        let h = hex_of(&g);
+                        w!("rtuext {} {h}", n);
+                        w!("rtuscan {} {h}", dname(d));
+                        w!("rtudec {} {h}", dname(d));
+                        w!("#@ C08 snd {h}");
+                    }
                     for (a, b) in spans {
                         let c = crc_wire(&adu[a..b]);
                         let mut f = adu.clone(); f.extend(c);
